@@ -94,10 +94,8 @@ fn check_interleave<K: Kind>(c: &WHist, ctx: &mut Ctx) -> Result<(), Fail> {
     if c.disk {
         ctx.class("from_path");
         let dir = crate::common::scratch_dir();
-        let p = dir.join("c09.shp");
+        let p = crate::common::scratch_shp("c09", c.ops.len() + c.ty.code() as usize);
         let px = p.with_extension("shx");
-        let _ = std::fs::remove_file(&p);
-        let _ = std::fs::remove_file(&px);
         let mut w = ShapeWriter::from_path(&p).map_err(|e| Fail::new("write-error", err_str(&e)))?;
         let mut so_far: Vec<&K> = Vec::new();
         for (k, op) in c.ops.iter().enumerate() {
@@ -361,11 +359,21 @@ impl EnumProp for Interleave {
         let max_len = env.pickn(6, 8);
         let npairs = env.pickn(3, 6);
         let disk_len = env.pickn(4, 6);
+        let npairs = npairs + 1;
         let pairs: Vec<(Ty, Geom, Geom)> = ALL13
             .iter()
             .flat_map(|t| {
                 (0..npairs).map(move |k| {
-                    let (a, b) = sample_pair(*t, env.seed, k);
+                    let (mut a, b) = sample_pair(*t, env.seed, k);
+                    if k == npairs - 1 {
+                        // the last pair: `a` is made of "default" points only (x = y = z = 0, m = NO_DATA) — values a
+                        // header that was never grown could be confused with
+                        for p in a.parts.iter_mut() {
+                            for v in p.pts.iter_mut() {
+                                *v = [F::of(0.0), F::of(0.0), F::of(0.0), if t.carries_m() { F::of(NO_DATA) } else { F(0) }];
+                            }
+                        }
+                    }
                     (*t, a, b)
                 })
             })
@@ -546,11 +554,22 @@ fn make_writer(kind: u8) -> (Box<dyn AnyWriter>, Vec<Dest>) {
     }
 }
 
+/// kind 3: the complete Writer is built around a ShapeWriter that has already accepted one shape of the first type.
+fn make_preused_writer(c: &THist) -> Result<(Box<dyn AnyWriter>, Vec<Dest>), Fail> {
+    let (shp, shx, dbf) = (Dest::new(), Dest::new(), Dest::new());
+    let mut sw = SW(ShapeWriter::with_shx(shp.clone(), shx.clone()));
+    sw.write(c.first, &c.g_first, 0).map_err(|e| Fail::new("write-error", err_str(&e)))?;
+    let tw = dbase::TableWriterBuilder::new()
+        .add_numeric_field("idx".try_into().unwrap(), 10, 0)
+        .build_with_dest(dbf.clone());
+    Ok((Box::new(CW(Writer::new(sw.0, tw))), vec![shp, shx, dbf]))
+}
+
 /// Runs a history; returns the final bytes of every destination. With `strict`, rejected calls are
 /// checked (error value, no I/O).
 fn run_thist(c: &THist, ops: &[TOp], tail: u8, strict: bool, ctx: &mut Ctx) -> Result<Vec<Vec<u8>>, Fail> {
-    let (mut w, dests) = make_writer(c.writer);
-    let mut file_ty: Option<Ty> = None;
+    let (mut w, dests) = if c.writer == 3 { make_preused_writer(c)? } else { make_writer(c.writer) };
+    let mut file_ty: Option<Ty> = if c.writer == 3 { Some(c.first) } else { None };
     let mut seen_reject = false;
     let mut idx = 0usize;
     for (k, op) in ops.iter().enumerate() {
@@ -647,7 +666,7 @@ impl Prop for OneType {
     }
     fn rule() -> &'static str {
         "bounded-exhaustive: all 13x12 ordered pairs (first type, offered type) x all sequences over {write first-type, write \
-         offered-type, finalize} of length <= L (quick 6, thorough 8) x {ShapeWriter with shx, without, complete Writer with dbf} x ending {drop, consuming write_shapes / write_shapes_and_records with shapes of the offered type, of the first type}. The \
+         offered-type, finalize} of length <= L (quick 6, thorough 8) x {ShapeWriter with shx, without, complete Writer with dbf, complete Writer built around a ShapeWriter that already accepted a shape} x ending {drop, consuming write_shapes / write_shapes_and_records with shapes of the offered type, of the first type}. The \
          type is fixed by the first accepted write; every later write of the other type must return MismatchShapeType{requested: file \
          type, actual: offered}, issue no write call on and leave the bytes of every destination (dbf included) unchanged, and the final files must equal \
          those of the same history with the rejected calls removed. Non-trivial: a rejected call followed by an accepted write"
@@ -655,7 +674,7 @@ impl Prop for OneType {
     fn check(c: &THist, ctx: &mut Ctx) -> Result<(), Fail> {
         let got = run_thist(c, &c.ops, c.tail, true, ctx)?;
         // same history with the rejected calls deleted
-        let mut file_ty: Option<TOp> = None;
+        let mut file_ty: Option<TOp> = if c.writer == 3 { Some(TOp::First) } else { None };
         let filtered: Vec<TOp> = c
             .ops
             .iter()
@@ -793,18 +812,23 @@ impl EnumProp for OneType {
             }
             let s = seqs.next_seq(max_len)?;
             let ops: Vec<TOp> = s.iter().map(|x| [TOp::First, TOp::Offered, TOp::Fin][*x]).collect();
-            // histories start with an accepted write of the first type or a finalize
-            if ops[0] == TOp::Offered {
-                continue;
-            }
+            // histories start with an accepted write of the first type or a finalize — except on the pre-used writer
+            // (kind 3), whose type is already fixed, so that its very first call may be the rejected one
+            let starts_with_offered = ops[0] == TOp::Offered;
             for (i, first) in ALL13.iter().enumerate() {
                 for (j, offered) in ALL13.iter().enumerate() {
                     if i == j {
                         continue;
                     }
-                    for writer in 0..3u8 {
-                        if writer == 2 && ops.contains(&TOp::Fin) {
+                    for writer in 0..4u8 {
+                        if starts_with_offered && writer != 3 {
+                            continue;
+                        }
+                        if writer >= 2 && ops.contains(&TOp::Fin) {
                             continue; // the complete Writer has no finalize
+                        }
+                        if writer == 3 && ops.len() > 4 {
+                            continue;
                         }
                         for tail in 0..3u8 {
                             // bulk tails only on the shorter histories (they add one more call)
